@@ -64,7 +64,7 @@ Lemma ps_record_sizes ptr isz st l b st' l' : ps_record ptr isz (st, l) b = POk 
 Proof.
   unfold ps_record.
   destruct (parse_dr b) as [r|]; [|discriminate].
-  destruct (ps_outside (sysuse r)); [discriminate|].
+  destruct (ps_outside (sysuse r) (znth 32 b)); [discriminate|].
   destruct (ps_is_dir r) eqn:Hd.
   - cbv beta iota zeta.
     match goal with |- context [if ?c then PInvalid 3 else _] => destruct c; [discriminate|] end.
@@ -86,7 +86,7 @@ Lemma ps_record_nofuel ptr isz s b : ps_record ptr isz s b <> PFuel.
 Proof.
   destruct s as [st l]. unfold ps_record.
   destruct (parse_dr b) as [r|]; [|discriminate].
-  destruct (ps_outside (sysuse r)); [discriminate|].
+  destruct (ps_outside (sysuse r) (znth 32 b)); [discriminate|].
   assert (Ht : forall cur child, ps_track cur child l <> PFuel).
   { intros cur child. unfold ps_track. cbv zeta.
     match goal with |- (if ?d then _ else _) <> _ => destruct d end; [|discriminate].
